@@ -343,6 +343,10 @@ def select_case(cases, cond_subs):
     return hits[0]
 
 
+MEMO_ATTRS = set()      # attributes of a complete memo in the method under analysis (set by check_formulas): the memo is transparent,
+                        # the path that recomputes is the one compared
+
+
 def feasible_cases(cases, subs):
     """Cases whose path condition can hold under `subs` -> [(case, extra substitution)].  Conditions on index attributes are decided by
     the scenario; a test of a parameter or state value against a constant (`if n == 1.0`) splits the domain: on its true side the
@@ -357,6 +361,11 @@ def feasible_cases(cases, subs):
             if v == sp.true or v == sp.false:
                 if (v == sp.true) != truth:
                     feasible = False
+                    break
+                continue
+            if isinstance(v, sp.Basic) and MEMO_ATTRS and any(str(a) in MEMO_ATTRS for a in v.free_symbols):
+                if not truth:
+                    feasible = False        # the cached value equals the recomputed one (complete key): only the recomputing path is compared
                     break
                 continue
             if isinstance(v, (sp.Eq, sp.Ne)):
@@ -388,7 +397,7 @@ def check_formulas(ctx, cls, roles):
         dcx, fx = ctx.prog.resolve_method(cls, meth)
         if fx is None:
             return None
-        st = util.self_stores(fx)
+        st = util.hidden_state_stores(fx)
         if st:
             return (dcx, meth, st)
         for c_ in ast.walk(fx):
@@ -399,6 +408,14 @@ def check_formulas(ctx, cls, roles):
         return None
     for mode in MODES:
         dc0, f0 = ctx.prog.resolve_method(cls, mode)
+        MEMO_ATTRS.clear()
+        for m_ in list(MODES):
+            dcm, fm = ctx.prog.resolve_method(cls, m_)
+            if fm is not None:
+                for st_ in util.self_stores(fm):
+                    for t_ in (st_.targets if isinstance(st_, ast.Assign) else [getattr(st_, 'target', None)]):
+                        if t_ is not None:
+                            MEMO_ATTRS.add(src(t_))
         impure = closure_stores(mode)
         hidden = impure[2] if impure else []
         if hidden:
@@ -639,6 +656,16 @@ def check_iface_loop(ctx, cls, slot, module='simulator', prop_vec='self.c_propen
         for x in ast.walk(lp):
             if isinstance(x, (ast.Break, ast.Return)):
                 problems.append('reaction loop can exit early')
+    # deterministic modes work on real-valued concentrations: the closed form holds for every positive state, so a rate may be forced
+    # to 0 only under a condition that includes `state[...] <= 0` (an integer copy-number requirement has no place here)
+    if slot in ('compute_propensities', 'compute_volume_propensities'):
+        for n_ in ast.walk(f):
+            if isinstance(n_, ast.Assign) and src(n_.targets[0]).startswith(dest + '[') and util.const_num(n_.value) == 0:
+                g = util.guards_of(n_, f)
+                gg = [x.replace(' ', '') for x in g]
+                clamp = any(x.startswith(dest + '[') and x.endswith(']<0') for x in gg)     # a negative value clamped to 0: never the case for the closed forms
+                if not clamp and not any(x.startswith(state + '[') and (x.endswith(']<=0') or x.endswith(']<0')) for x in gg):
+                    problems.append('the deterministic rate is set to 0 under %s, which can hold at a positive concentration' % (sorted(g) or 'no condition'))
     ctx.ob('R1.4-iface-loop', '%s%s/%s' % (key_prefix, cls, slot), not problems, where,
            'every reaction r: dest[r] = propensity[r].%s(state, params%s, time)' % (want, ', volume' if with_vol else ''),
            '; '.join(problems) or 'executes %s.%s' % (dc, slot))
